@@ -452,6 +452,122 @@ def cowsplit_cases():
     return cases
 
 
+# ----------------------------------------------------------------------------------------------
+# infinities and negative zero: outside the Coq value model (doubles there are exact dyadics), but inside the
+# property ("floating values other than NaN").  Cases whose operands include dinf / d-inf / d-0 are judged by
+# the small oracle below instead of the extracted Spec/Model: root-level scalar histories only; what IEEE and
+# printf("%f") prescribe for the three special values is written out here, everything about the ordinary
+# operands (their coercions) is taken from the extracted Spec.
+# ----------------------------------------------------------------------------------------------
+SPECIALS = {          # token: (dump, toBool, toInt.., toDouble token, toString, float)
+    'dinf': ('dinf', '1', 'ub', 'ub', 'ub', 'ub', 'dinf', 'inf', float('inf')),
+    'd-inf': ('d-inf', '1', 'ub', 'ub', 'ub', 'ub', 'd-inf', '-inf', float('-inf')),
+    'd-0': ('d0_0', '0', '0', '0', '0', '0', 'd0_0', '-0.000000', -0.0),   # the harness prints both zeros as d0_0
+}
+SPECIAL_RE = re.compile(r'(^| )d(inf|-inf|-0)( |$)')
+COMPANIONS = ['n', 'b0', 'b1', 'i0', 'i1', 'i-1', 'i2147483647', 'u0', 'u4294967295', 'I0', 'I-9223372036854775808', 'U0',
+              'U18446744073709551615', 'd0_0', 'd1_0', 'd-1_0', 'd1_-1', 'd1_64', 'd-1_70', 'd1_-30']
+TYPECODE = {'n': 0, 'b': 1, 'd': 2, 'i': 3, 'u': 4, 'I': 5, 'U': 6}
+
+
+def is_special_case(case):
+    return any(SPECIAL_RE.search(l) for l in case)
+
+
+def dbl_tok_value(tok):
+    if tok in ('dinf', 'd-inf'):
+        return float(tok[1:])
+    m, e = tok[1:].split('_')
+    return float(int(m)) * (2.0 ** int(e))       # exact: |m| < 2^53 in the companion list
+
+
+class SpecialOracle:
+    """value model of root-level scalar histories with special doubles"""
+
+    def __init__(self, coercions_of):
+        self.coercions_of = coercions_of      # ordinary token -> 'b,i,u,I,U,dtok,strhex' (from the extracted Spec)
+
+    def co(self, tok):
+        if tok in SPECIALS:
+            sp = SPECIALS[tok]
+            return [sp[1], sp[2], sp[3], sp[4], sp[5], sp[6], hexs(sp[7].encode())]
+        return self.coercions_of(tok).split(',')
+
+    def dump(self, tok):
+        return SPECIALS[tok][0] if tok in SPECIALS else tok
+
+    def dval(self, tok):
+        return SPECIALS[tok][8] if tok in SPECIALS else dbl_tok_value(tok)
+
+    def eq(self, a, b):
+        """Variant::operator== with lhs a: the lhs alternative decides, the rhs is coerced"""
+        cb = self.co(b)
+        k = a[0]
+        if k == 'n':
+            return 't' if b == 'n' else 'f'
+        if k == 'b':
+            return 't' if a[1] == cb[0] else 'f'
+        if k == 'd':
+            return 't' if self.dval(a) == dbl_tok_value(cb[5]) else 'f'
+        x = cb[{'i': 1, 'u': 2, 'I': 3, 'U': 4}[k]]
+        if x == 'ub':
+            return 'u'
+        return 't' if int(a[1:]) == int(x) else 'f'
+
+    def run(self, case, with_shape):
+        cfg = case[0][1:].split() if case and case[0].startswith('@') else []
+        k = int(cfg[0]) if cfg else 3
+        v = ['n'] * k
+        out = []
+        for l in (case[1:] if case and case[0].startswith('@') else case):
+            t = l.split()
+            res = 'done'
+            try:
+                if t[0] == 'sets' and t[2] == '-':
+                    v[int(t[1])] = t[3]
+                elif t[0] == 'csets':
+                    v[int(t[1])] = t[2]
+                elif t[0] == 'assign' and t[2] == '-' and t[4] == '-':
+                    v[int(t[1])] = v[int(t[3])]
+                elif t[0] == 'copynew':
+                    if t[1] == t[2]:
+                        res = 'badvar'
+                    else:
+                        v[int(t[1])] = v[int(t[2])]
+                elif t[0] == 'swap':
+                    i, j = int(t[1]), int(t[2])
+                    v[i], v[j] = v[j], v[i]
+                elif t[0] == 'clear' and t[2] == '-':
+                    v[int(t[1])] = 'n'
+                else:
+                    res = '?outside-the-special-oracle'
+            except IndexError:
+                res = 'badvar'
+            line = '%s | %s | %s | %s' % (res, ' '.join('%d:%s' % (TYPECODE[x[0]], self.dump(x)) for x in v),
+                                          ' '.join(','.join(self.co(x)) for x in v),
+                                          ''.join(self.eq(a, b) for a in v for b in v))
+            if with_shape:
+                line += ' | ' + ' '.join('.' for _ in v) + ' live=0'
+            out.append(line)
+        out.append('end leak=0')
+        return out
+
+
+def special_cases(rng, thorough):
+    toks = list(SPECIALS) + COMPANIONS
+    cases = []
+    n = 0
+    for a in toks:
+        for b in toks:
+            if a not in SPECIALS and b not in SPECIALS:
+                continue
+            n += 1
+            c = ['@3', ('csets 0 %s' % a) if n % 2 else ('sets 0 - %s' % a), ('csets 1 %s' % b) if n % 3 == 0 else ('sets 1 - %s' % b),
+                 'assign 2 - 0 -', 'swap 0 1', 'copynew 1 2', 'sets 2 - %s' % b, 'clear 0 -']
+            cases.append(c)
+    return cases
+
+
 OPEN_WITNESS = 'corpus/C07/open/self-containing.ops'
 
 
@@ -531,6 +647,31 @@ class C07(Check):
             i += 300
         return res, crashes
 
+    # ---- special doubles: judged by SpecialOracle instead of the extracted Spec/Model ----
+    _co_cache = None
+
+    def _coercions_of(self, tok):
+        if self._co_cache is None:
+            res = Check.run_spec(self, [['@1', 'sets 0 - %s' % t] for t in COMPANIONS], tag='spec_companions')
+            C07._co_cache = {t: r[0].split(' | ')[2] for t, r in zip(COMPANIONS, res)}
+        return self._co_cache[tok]
+
+    def _with_special(self, cases, tag, base, with_shape):
+        idx = [i for i, c in enumerate(cases) if is_special_case(c)]
+        if not idx:
+            return base(self, cases, tag=tag)
+        orc = SpecialOracle(self._coercions_of)
+        rest = [c for i, c in enumerate(cases) if i not in set(idx)]
+        rr = iter(base(self, rest, tag=tag) if rest else [])
+        sidx = set(idx)
+        return [orc.run(c, with_shape) if i in sidx else next(rr) for i, c in enumerate(cases)]
+
+    def run_spec(self, cases, tag='spec'):
+        return self._with_special(cases, tag, Check.run_spec, False)
+
+    def run_model(self, cases, tag='model'):
+        return self._with_special(cases, tag, Check.run_model, True)
+
     def nontrivial(self, case, obs):
         shared = any(re.search(r':r([2-9]|\d\d)', l.split(' | ')[-1]) for l in obs if ' | ' in l)
         kinds = ({l.split()[3][0] for l in case if l.startswith('sets ')} | {l.split()[2][0] for l in case if l.startswith('csets ')}
@@ -556,6 +697,10 @@ class C07(Check):
             cases.append(['@2', setop(a, 0, n % 2 == 1), setop(b, 1, n % 3 == 1)])
         out.append(Stream('coerce', cases, exhaustive=thorough,
                           note='every alternative (boundary scalars, %d strings) against %s' % (len(strs), 'every other' if thorough else '3 random others')))
+        # 1a. infinities and negative zero (outside the Coq model; python oracle, see SpecialOracle)
+        out.append(Stream('dblspecial', special_cases(rng, thorough), exhaustive=True,
+                          note='dinf / d-inf / d-0 against each other and %d ordinary scalars: set or construct, assign, swap, copy, ==, '
+                               'every coercion; expected values from a hand-written oracle' % len(COMPANIONS)))
         # 1b. the copy-on-write case split (all of it in the thorough tier, a third in the quick tier)
         cw = cowsplit_cases()
         if not thorough:
